@@ -324,7 +324,7 @@ func c15DiffOnce(p *c15Pair, comp lib.Compression, procs int, rng *lib.Rng) (res
 
 func c15DiffCases(c *Ctx) error {
 	r := c.Rng.Fork()
-	n := c.N(6, 40)
+	n := c.N(6, 60)
 	runs := c.N(4, 12)
 	for i := 0; i < n; i++ {
 		cr := r.Fork()
@@ -499,7 +499,7 @@ func c15OptimizeCorpus(c *Ctx) error {
 
 func c15OptimizeCases(c *Ctx) error {
 	r := c.Rng.Fork()
-	n := c.N(5, 24)
+	n := c.N(5, 32)
 	runs := c.N(4, 8)
 	for i := 0; i < n; i++ {
 		cr := r.Fork()
@@ -629,7 +629,7 @@ func c15GenBsdiffPair(r *lib.Rng, class string, thorough bool) (old, nw []byte) 
 
 func c15Bsdiff(c *Ctx) error {
 	r := c.Rng.Fork()
-	n := c.N(6, 30)
+	n := c.N(6, 40)
 	runs := c.N(3, 6)
 	for i := 0; i < n; i++ {
 		cr := r.Fork()
@@ -654,7 +654,7 @@ func c15Bsdiff(c *Ctx) error {
 			var prog []float64
 			var cls, msg string
 			withProcs(procs, func() {
-				cls, msg = lib.WithDeadline(60*time.Second, func() error {
+				cls, msg = lib.WithDeadline(120*time.Second, func() error {
 					var err error
 					stream, m, replay, b, prog, err = c15RunBsdiff(old, nw, partitions, conc)
 					return err
